@@ -244,7 +244,9 @@ def update_dictionary(current, update):
     Expects current to be a dictionary, with no restriction on the types of objects
     stored within it, and no defaults values.
     """
-    result = current
+    # do not modify the current value in place: after a division it may
+    # be shared with the other daughter
+    result = dict(current)
 
     for key, value in update.items():
         if key == "_add":
@@ -256,7 +258,7 @@ def update_dictionary(current, update):
             for k in value:
                 del result[k]
         elif key in result:
-            result[key].update(value)
+            result[key] = {**result[key], **value}
         else:
             raise Exception(f"Invalid dict_value_updater key: {key}")
     return result
